@@ -551,6 +551,20 @@ func (s *BlockListSpec) decode(content *hcl.BodyContent, blockLabels []blockLabe
 		}
 	}
 
+	// The unified type can itself contain cty.DynamicPseudoType, for example
+	// when the dynamically-typed attribute is null or unknown in one of the
+	// blocks. The conversions above then leave the values from the other
+	// blocks as they were, and so they can still disagree with each other.
+	if !cty.CanListVal(elems) {
+		diags = append(diags, &hcl.Diagnostic{
+			Severity: hcl.DiagError,
+			Summary:  fmt.Sprintf("Unconsistent argument types in %s blocks", s.TypeName),
+			Detail:   "Corresponding attributes in all blocks of this type must be the same.",
+			Subject:  &sourceRanges[0],
+		})
+		return cty.DynamicVal, diags
+	}
+
 	return cty.ListVal(elems), diags
 }
 
@@ -836,6 +850,20 @@ func (s *BlockSetSpec) decode(content *hcl.BodyContent, blockLabels []blockLabel
 			}
 			elems[i] = newV
 		}
+	}
+
+	// The unified type can itself contain cty.DynamicPseudoType, for example
+	// when the dynamically-typed attribute is null or unknown in one of the
+	// blocks. The conversions above then leave the values from the other
+	// blocks as they were, and so they can still disagree with each other.
+	if !cty.CanSetVal(elems) {
+		diags = append(diags, &hcl.Diagnostic{
+			Severity: hcl.DiagError,
+			Summary:  fmt.Sprintf("Unconsistent argument types in %s blocks", s.TypeName),
+			Detail:   "Corresponding attributes in all blocks of this type must be the same.",
+			Subject:  &sourceRanges[0],
+		})
+		return cty.DynamicVal, diags
 	}
 
 	return cty.SetVal(elems), diags
